@@ -37,7 +37,7 @@ META = {
     'components_stub': ['S3 bucket, directory listing order', 'multiprocessing (sample runs)', 'tunings (journaling)'],
     'budgets': {'quick': {'seconds': 30}, 'thorough': {'seconds': 480}},
     'required_probes': {'thorough': ['explicit_ids', 'lookup_driven', 'tuner_failed', 'interleaved_consumption', 'cassette_memory', 'cassette_file', 'cassette_s3',
-                                     'dedicated_process_sample', 'prefix_sibling_categories', 'more_than_20_ids_of_one_category']},
+                                     'dedicated_process_sample', 'prefix_sibling_categories', 'more_than_20_ids_of_one_category', 'explicit_ids_with_lookup_limit']},
 }
 
 
@@ -126,13 +126,17 @@ def scenario(run, tape, clock, store):
     tag_of, cat_of, incomplete = {}, {}, set()
     many = tape.draw(8) == 7
     n = 22 + tape.draw(6) if many else 1 + tape.draw(12)
-    cats_used = [tape.choice(S.CATEGORIES[:2] if many else S.CATEGORIES) for _ in range(n)]
     if many:
-        run.probe('more_than_20_ids_of_one_category')
+        # at least 22 recordings of one category (the studio's default lookup limit is 20), a few of a sibling category
+        main_cat = tape.choice(S.CATEGORIES[:2])
+        cats_used = [main_cat] * n + [tape.choice(S.CATEGORIES) for _ in range(tape.draw(4))]
+        n = len(cats_used)
+    else:
+        cats_used = [tape.choice(S.CATEGORIES) for _ in range(n)]
     spy_ids = []
     for i, cat in enumerate(cats_used):
         tag = 't%d' % i
-        inc = tape.draw(6) == 5
+        inc = tape.draw(6) == 5 and not (many and i < 22)
         jstate['interrupt'] = tag if inc else None
         before = set(all_ids(store, cas))
         try:
@@ -176,7 +180,15 @@ def scenario(run, tape, clock, store):
             selected = complete_ids[:1]
         if not selected:
             return
-        studio = PlaybackStudio(['ignored'], tuner, play_recorder, recording_ids=list(selected), compare_execution_config=cfg)
+        # lookup properties given next to explicit ids select nothing: the ids are the selection
+        stray_limit = tape.choice([None, None, 1, 2])
+        stray = None if stray_limit is None else RecordingLookupProperties(None, limit=stray_limit)
+        if stray is not None:
+            run.probe('explicit_ids_with_lookup_limit')
+        if many:
+            run.probe('more_than_20_ids_of_one_category')
+        studio = PlaybackStudio(['ignored'], tuner, play_recorder, recording_ids=list(selected), lookup_properties=stray,
+                                compare_execution_config=cfg)
         expected_by_cat = {}
         for rid in selected:
             expected_by_cat.setdefault(cat_of[rid], []).append(rid)
